@@ -16,7 +16,8 @@ import (
 // TOKEN — single-writer response slots.
 
 type slotSend struct {
-	send  *ssa.Send
+	send  ssa.Instruction // the write as its function sees it: the send, or the call of a put wrapper
+	msg   ssa.Value       // the message written
 	fn    *ssa.Function
 	resp  ssa.Value // the Response whose slot is written (normalised)
 	owner string
@@ -45,13 +46,12 @@ func slotSends(c *chk.Ctx) []slotSend {
 	var out []slotSend
 	for _, f := range pkgFuncs(c, c.M.Pkg) {
 		ir.Instrs(f, func(ins ssa.Instruction) {
-			s, ok := ins.(*ssa.Send)
-			if !ok || !chk.LoadsField(s.Chan, c.M.RCh) {
+			msg, resp, ok := slotWriteAt(c, ins)
+			if !ok {
 				return
 			}
-			fa := s.Chan.(*ssa.UnOp).X.(*ssa.FieldAddr)
 			o, t := tableOwner(c, f)
-			out = append(out, slotSend{send: s, fn: f, resp: ir.NormCell(fa.X), owner: o, table: t})
+			out = append(out, slotSend{send: ins, msg: msg, fn: f, resp: resp, owner: o, table: t})
 		})
 	}
 	return out
@@ -138,16 +138,45 @@ func takeHelper(c *chk.Ctx, h *ssa.Function, table *types.Var, lock facts.Path) 
 			idx = i
 		}
 	}
+	// (a "drop" helper reports only whether there was an entry: its one result is the
+	// look-up's ok flag, or the entry compared with nil)
+	isFlag := false
+	if b, isB := h.Signature.Results().At(0).Type().Underlying().(*types.Basic); isB && b.Kind() == types.Bool {
+		isFlag = true
+	}
 	nonNil := 0
 	for _, r := range ir.Returns(h) {
 		v := ir.NormCell(ir.ReturnResult(r, 0))
 		if ir.IsNilConst(v) {
 			continue
 		}
+		if k, isK := v.(*ssa.Const); isK && isFlag && k.Value != nil && k.Value.String() == "false" {
+			continue
+		}
 		nonNil++
-		isEntry := v == ssa.Value(lk)
-		if e, ok := v.(*ssa.Extract); ok && e.Index == 0 && e.Tuple == ssa.Value(lk) {
+		isEntry := v == ssa.Value(lk) && !isFlag
+		if e, ok := v.(*ssa.Extract); ok && e.Index == 0 && e.Tuple == ssa.Value(lk) && !isFlag {
 			isEntry = true
+		}
+		if isFlag {
+			if e, ok := v.(*ssa.Extract); ok && e.Index == 1 && e.Tuple == ssa.Value(lk) {
+				isEntry = true
+			}
+			if x, eq, ok := ir.NilCompare(v); ok && !eq && ir.NormCell(x) == ssa.Value(lk) {
+				isEntry = true
+			}
+			if k, isK := v.(*ssa.Const); isK && k.Value != nil && k.Value.String() == "true" {
+				// a literal true: only on the hit edge
+				for _, cd := range ir.CondsAt(r.Block()) {
+					x, eq, ok := ir.NilCompare(cd.V)
+					if ok && ir.NormCell(x) == ssa.Value(lk) && eq != cd.Truth {
+						isEntry = true
+					}
+					if e, isE := cd.V.(*ssa.Extract); isE && e.Tuple == ssa.Value(lk) && e.Index == 1 && cd.Truth {
+						isEntry = true
+					}
+				}
+			}
 		}
 		if !isEntry {
 			return -1, false
@@ -200,14 +229,17 @@ func takeHelper(c *chk.Ctx, h *ssa.Function, table *types.Var, lock facts.Path) 
 func findPresence(c *chk.Ctx, f *ssa.Function, table *types.Var, at ssa.Instruction) []presence {
 	var out []presence
 	conds := ir.CondsAt(at.Block())
-	// through a take helper: `e := take(k); e != nil` dominating at
-	for _, cd := range conds {
-		x, eq, ok := ir.NilCompare(cd.V)
-		if !ok || eq == cd.Truth {
-			continue
+	// through a take helper: `e := take(k); e != nil` dominating at (or `drop(k)` true)
+	for _, cd := range ir.NormConds(conds) {
+		var call *ssa.Call
+		if x, eq, ok := ir.NilCompare(cd.V); ok && eq != cd.Truth {
+			call, _ = ir.NormCell(x).(*ssa.Call)
+		} else if cv, isCall := cd.V.(*ssa.Call); isCall && cd.Truth {
+			if b, isB := cv.Type().Underlying().(*types.Basic); isB && b.Kind() == types.Bool {
+				call = cv
+			}
 		}
-		call, ok := ir.NormCell(x).(*ssa.Call)
-		if !ok {
+		if call == nil {
 			continue
 		}
 		owner, _ := tableOwner(c, f)
@@ -215,7 +247,15 @@ func findPresence(c *chk.Ctx, f *ssa.Function, table *types.Var, at ssa.Instruct
 			continue
 		}
 		if idx, ok := takeHelper(c, call.Call.StaticCallee(), table, ownerLock(c, owner)); ok && idx < len(call.Call.Args) {
-			out = append(out, presence{call, c.P.Canon(call.Call.Args[idx]), call, true})
+			var entry ssa.Value = call
+			if _, isPtr := call.Type().Underlying().(*types.Pointer); !isPtr {
+				entry = nil // a flag only: the entry itself is not handed out
+			}
+			out = append(out, presence{call, c.P.Canon(call.Call.Args[idx]), entry, true})
+			if k := ir.NormCell(call.Call.Args[idx]); k != c.P.Canon(call.Call.Args[idx]) {
+				// (the key as this function sees it: its own parameter, tied to the Response at the call sites)
+				out = append(out, presence{call, k, entry, true})
+			}
 		}
 	}
 	// through an exact look-up wrapper (a table type's method): the call is the look-up
@@ -239,6 +279,12 @@ func findPresence(c *chk.Ctx, f *ssa.Function, table *types.Var, at ssa.Instruct
 			if w.kind == "lookupok" {
 				if e, ok := cd.V.(*ssa.Extract); ok && e.Tuple == ssa.Value(call) && e.Index == 1 && cd.Truth {
 					out = append(out, presence{call, key, nil, false})
+				}
+				// the value half tested instead of the flag: `e, _ := look(k); e != nil`
+				if x, eq, ok := ir.NilCompare(cd.V); ok && eq != cd.Truth {
+					if e, isE := ir.NormCell(x).(*ssa.Extract); isE && e.Tuple == ssa.Value(call) && e.Index == 0 {
+						out = append(out, presence{call, key, e, false})
+					}
 				}
 			} else if x, eq, ok := ir.NilCompare(cd.V); ok && x == ssa.Value(call) && eq != cd.Truth {
 				out = append(out, presence{call, key, call, false})
@@ -350,9 +396,17 @@ func ruleTokenWrite(c *chk.Ctx, owner string) {
 		}
 		// no second slot write after this one
 		again, at := ir.Reaches(s.send, func(i ssa.Instruction) bool {
-			s2, ok := i.(*ssa.Send)
-			return ok && chk.LoadsField(s2.Chan, c.M.RCh)
+			_, _, ok := slotWriteAt(c, i)
+			return ok
 		}, func(i ssa.Instruction) bool { // a fresh lookup starts a new token
+			if call, isCall := i.(*ssa.Call); isCall {
+				if _, isTake := takeHelper(c, call.Call.StaticCallee(), s.table, lock); isTake {
+					return true
+				}
+				if _, isW := wrapperCall(c, call, s.table, "lookup", "lookupok", "has"); isW {
+					return true
+				}
+			}
 			lk, ok := i.(*ssa.Lookup)
 			return ok && chk.LoadsField(lk.X, s.table)
 		})
@@ -432,6 +486,12 @@ func paramTiedToKey(c *chk.Ctx, f *ssa.Function, resp *ssa.Parameter, key ssa.Va
 func ruleTokenBuffered(c *chk.Ctx) {
 	n := 0
 	for _, st := range c.P.FieldStores(c.M.RCh) {
+		// (a mailbox type's constructor counts once per Response built with it)
+		if f := st.Parent(); f.Parent() == nil && !ir.Exported(f) && len(f.Blocks) == 1 && !c.P.UsedAsValue(f) && ir.RecvNamed(f) == nil {
+			if k := len(c.P.Callers(f)); k > 1 {
+				n += k - 1
+			}
+		}
 		n++
 		mk, ok := st.Val.(*ssa.MakeChan)
 		k := int64(0)
@@ -484,6 +544,15 @@ func ruleTokenKeyed(c *chk.Ctx, owner string) {
 			continue // reported by TOKEN.write
 		}
 		key := pres[0].key
+		isKey := func(v ssa.Value) bool {
+			// (the key as any of the ways the presence was established sees it)
+			for _, p := range pres {
+				if v == p.key {
+					return true
+				}
+			}
+			return false
+		}
 		inbound := keyMessage(c, key)
 		if inbound == nil {
 			// key and message handed to a private helper together: read both at its call site
@@ -505,7 +574,7 @@ func ruleTokenKeyed(c *chk.Ctx, owner string) {
 			}
 			cands = append(cands, v)
 		}
-		expandMsg(s.send.X, 0)
+		expandMsg(s.msg, 0)
 		allOK, whyAll := len(cands) > 0, ""
 		for _, msg := range cands {
 			ok := false
@@ -548,7 +617,7 @@ func ruleTokenKeyed(c *chk.Ctx, owner string) {
 							continue
 						}
 						v := st.Val
-						if cv, isC := v.(*ssa.Convert); isC && norm(cv.X) == key {
+						if cv, isC := v.(*ssa.Convert); isC && isKey(norm(cv.X)) {
 							ok, why = true, "fresh message whose ID is the lookup key"
 						}
 						if u, isU := v.(*ssa.UnOp); isU && inbound != nil {
@@ -573,11 +642,15 @@ func ruleTokenKeyed(c *chk.Ctx, owner string) {
 
 // ruleTokenClose: a slot is closed only by its single receiver, after a successful receive.
 func ruleTokenClose(c *chk.Ctx) {
-	var recvs []*ssa.UnOp
+	type slotRecv struct {
+		tuple   ssa.Value
+		CommaOk bool
+	}
+	var recvs []slotRecv
 	for _, f := range pkgFuncs(c, c.M.Pkg) {
 		ir.Instrs(f, func(ins ssa.Instruction) {
-			if u, ok := ins.(*ssa.UnOp); ok && u.Op == token.ARROW && chk.LoadsField(u.X, c.M.RCh) {
-				recvs = append(recvs, u)
+			if tuple, commaOk, ok := slotRecvAt(c, ins); ok {
+				recvs = append(recvs, slotRecv{tuple, commaOk})
 			}
 		})
 	}
@@ -586,11 +659,7 @@ func ruleTokenClose(c *chk.Ctx) {
 	for _, f := range pkgFuncs(c, c.M.Pkg) {
 		ir.Instrs(f, func(ins ssa.Instruction) {
 			call, ok := ins.(*ssa.Call)
-			if !ok {
-				return
-			}
-			b, isB := call.Call.Value.(*ssa.Builtin)
-			if !isB || b.Name() != "close" || !chk.LoadsField(call.Call.Args[0], c.M.RCh) {
+			if !ok || !slotCloseAt(c, ins) {
 				return
 			}
 			nClose++
@@ -601,7 +670,7 @@ func ruleTokenClose(c *chk.Ctx) {
 						continue
 					}
 					for _, cd := range cs {
-						if e, isE := cd.V.(*ssa.Extract); isE && e.Tuple == ssa.Value(r) && e.Index == 1 && cd.Truth {
+						if e, isE := cd.V.(*ssa.Extract); isE && e.Tuple == r.tuple && e.Index == 1 && cd.Truth {
 							return true
 						}
 					}
@@ -676,6 +745,53 @@ func ruleTokenRegister(c *chk.Ctx, owner string) {
 				for _, cs := range c.P.Callers(f) {
 					if w.valIdx < len(cs.Instr.Common().Args) {
 						sites = append(sites, regSite{cs.Caller, cs.Instr, ir.NormCell(cs.Instr.Common().Args[w.valIdx])})
+					}
+				}
+			}
+			// or by a private "open" function that builds the Response, registers it and hands it
+			// back without starting anything: then each call is the registration, with the
+			// returned Response
+			if len(sites) == 1 && sites[0].f == f && !ir.Exported(f) && f.Parent() == nil && !c.P.UsedAsValue(f) && len(c.P.Callers(f)) > 0 {
+				hasGo := false
+				ir.Instrs(f, func(i2 ssa.Instruction) {
+					if _, isGo := i2.(*ssa.Go); isGo {
+						hasGo = true
+					}
+				})
+				idx := -1
+				for _, r := range ir.Returns(f) {
+					for i := range r.Results {
+						if ir.SameValue(ir.ReturnResult(r, i), resp) {
+							idx = i
+						}
+					}
+				}
+				if !hasGo && idx >= 0 {
+					var lifted []regSite
+					for _, cs := range c.P.Callers(f) {
+						cv, isV := cs.Instr.(*ssa.Call)
+						if !isV {
+							lifted = nil
+							break
+						}
+						var rv ssa.Value
+						if f.Signature.Results().Len() == 1 {
+							rv = cv
+						} else {
+							for _, ref := range *cv.Referrers() {
+								if e, isE := ref.(*ssa.Extract); isE && e.Index == idx {
+									rv = e
+								}
+							}
+						}
+						if rv == nil {
+							lifted = nil
+							break
+						}
+						lifted = append(lifted, regSite{cs.Caller, cv, rv})
+					}
+					if len(lifted) > 0 {
+						sites = lifted
 					}
 				}
 			}
@@ -864,7 +980,7 @@ func ruleHooks(c *chk.Ctx) {
 						if g := call.Call.StaticCallee(); g != nil && ir.RecvNamed(g) == c.M.Response && ir.InstrDominates(call, ci) {
 							recvs := false
 							ir.Instrs(g, func(i3 ssa.Instruction) {
-								if u, ok := i3.(*ssa.UnOp); ok && u.Op == token.ARROW && chk.LoadsField(u.X, c.M.RCh) {
+								if _, _, ok := slotRecvAt(c, i3); ok {
 									recvs = true
 								}
 							})
@@ -1072,6 +1188,25 @@ func ruleFilterErrorTable(c *chk.Ctx) {
 	for _, r := range effectiveReturns(c, ec, 0) {
 		k, isC := ir.ConstInt(ir.ReturnResult(r, 0))
 		if !isC {
+			// a table-driven loop: `if errors.Is(err, e.target) { return e.code }` for every
+			// entry of a package-level table of constants
+			if tl := c.P.FindTableLoop(r.Parent()); tl != nil {
+				if fk, isF := tl.Field(ir.ReturnResult(r, 0)); isF {
+					for _, cd := range ir.CondsAt(r.Block()) {
+						if call, ok := cd.V.(*ssa.Call); ok && cd.Truth && ir.IsCallTo(&call.Call, "errors.Is") {
+							if tk, isT := tl.Field(call.Call.Args[1]); isT {
+								for _, row := range tl.Rows {
+									g := globalLoad(row[tk])
+									kk, isK := ir.ConstInt(row[fk])
+									if g != nil && isK {
+										fwd[g.Pkg.Pkg.Path()+"."+g.Name()] = kk
+									}
+								}
+							}
+						}
+					}
+				}
+			}
 			continue
 		}
 		for _, cd := range ir.CondsAt(r.Block()) {
@@ -1256,10 +1391,11 @@ func ruleWatcherContextPairing(c *chk.Ctx) {
 				return // reported by TOKEN.register
 			}
 			// the Response: load of pends[i]; the ctx: load of pctxs[i]
-			rl, ok1 := ir.NormCell(mu.Value).(*ssa.UnOp)
+			// (seen from the caller when registration is a private helper given both)
+			rl, ok1 := c.P.Canon(mu.Value).(*ssa.UnOp)
 			var cl *ssa.UnOp
 			for _, a := range watcher.Call.Args {
-				if u, ok := a.(*ssa.UnOp); ok && strings.HasSuffix(u.Type().String(), "context.Context") {
+				if u, ok := c.P.Canon(a).(*ssa.UnOp); ok && strings.HasSuffix(u.Type().String(), "context.Context") {
 					cl = u
 				}
 			}
